@@ -151,7 +151,7 @@ def run(check):
                   "type, enabled, stop_if, deploy, wait_for, closure timeout, workflow output, foreach items and parallelism), type-adapted so that Prepare accepts "
                   "them; (B) misbehaving plugins (undeclared output id, ill-typed data, nil data, step-fatal and server-fatal errors, dropped connection) at every "
                   "step of 4 shapes and protocol faults at the run-time deployment; oracle: the child process must not die by panic / fatal error (and must not "
-                  "hang); (C) results that appear only because the run is being terminated and reach steps that are being closed; (D) explicit output schemas that do not fit the workflow (missing root object, dangling reference, other types); (G) a step closed while its input is being handed over (delay at the hand-over point); (I) several workflow outputs producible in the same delivery round; (H) the misbehaving-plugin cases again with the engine configured to log step outputs (logged_outputs); (F) stage inputs written as plain constants on loop and plugin steps; (E) whole stage inputs (loop items, parallelism, wait_for, closure timeout, stop_if, enabled) that are wait-optional and absent at run time; non-trivial = a fault was injected and the workflow was accepted; distinct = (fault class, position)") % (len(FAULTS), len(POSITIONS))
+                  "hang); (C) results that appear only because the run is being terminated and reach steps that are being closed; (D) explicit output schemas that do not fit the workflow (missing root object, dangling reference, other types); (G) a step closed while its input is being handed over (delay at the hand-over point); (J) hand-written texts: string defaults that stay non-JSON when quoted, expressions faulting inside reflective calls; (I) several workflow outputs producible in the same delivery round; (H) the misbehaving-plugin cases again with the engine configured to log step outputs (logged_outputs); (F) stage inputs written as plain constants on loop and plugin steps; (E) whole stage inputs (loop items, parallelism, wait_for, closure timeout, stop_if, enabled) that are wait-optional and absent at run time; non-trivial = a fault was injected and the workflow was accepted; distinct = (fault class, position)") % (len(FAULTS), len(POSITIONS))
     check.assumptions = ["workflow inputs are schema-valid", "a rejected workflow is not a violation but is counted (coverage lost)"]
     gs = []
     for (fclass, ftype, fexpr, ov) in FAULTS:
@@ -324,6 +324,37 @@ def run(check):
         if g.get("logged_outputs"):
             case["logged_outputs"] = g["logged_outputs"]
         items.append((case, None, g))
+    # (J) texts written by hand: string defaults that are not JSON even when put in quotes (input section, sub-workflow input,
+    # explicit output schema) with inputs that leave properties out, and expressions whose evaluation faults inside a reflective
+    # call (a list of strings where a list of anything is declared, an integer key on a map keyed by machine integers)
+    STEP = '  w: {plugin: {src: leaf_w, deployment_type: scripted}, input: {tag: !expr "$.input.tag"}}\n'
+    def wf(props, outs, steps=STEP, root="RootObject", tail=""):
+        return "version: v0.2.0\ninput: {root: %s, objects: {%s: {id: %s, properties: {tag: {type: {type_id: string}}%s}}}}\nsteps:\n%soutputs:\n%s%s" % (root, root, root, props, steps, outs, tail)
+    OUT = '  success: {t: !expr "$.steps.w.outputs.success.tag"}\n'
+    LOOP = '  loop: {kind: foreach, workflow: sub.yaml, items: !expr "$.input.items"}\n'
+    ITEMS = ", items: {required: false, type: {type_id: list, items: {type_id: object, id: Item, properties: {tag: {type: {type_id: string}}}}}}"
+    raw = []
+    for k, dflt in enumerate(["'say \"hi\"'", "'back\\slash'", "\"line\\nbreak\"", "plain", "'\"quoted\"'", "''"]):
+        prop = ", s: {required: false, default: %s, type: {type_id: string}}, other: {required: false, type: {type_id: string}}" % dflt
+        raw.append(("string-default/input/%d" % k, {"workflow.yaml": wf(prop, OUT)}, {"tag": "T"}))
+        raw.append(("string-default/sub-workflow-input/%d" % k, {"workflow.yaml": wf(ITEMS, '  success: {d: !expr "$.steps.loop.outputs.success.data"}\n', steps=LOOP), "sub.yaml": wf(prop, OUT, root="Item")},
+                    {"tag": "T", "items": [{"tag": "i0"}]}))
+        raw.append(("string-default/output-schema/%d" % k, {"workflow.yaml": wf("", OUT, tail="outputSchema:\n  success:\n    schema: {root: R, objects: {R: {id: R, properties: {t: {type: {type_id: string}}, s: {required: false, default: %s, type: {type_id: string}}}}}}\n" % dflt)},
+                    {"tag": "T"}))
+    FAULTY = ['!expr \'bindConstants(splitString($.input.tag, ","), 1)\'', '!expr \'bindConstants(splitString($.steps.w.outputs.success.tag, "("), $.input.tag)\'',
+              '!expr "$.steps.loop.failed.error.errors[0]"', '!expr "$.steps.loop.failed.error.data[0]"', '!expr "$.steps.loop.failed.error.errors[\\"0\\"]"']
+    for k, ex in enumerate(FAULTY):
+        if "loop" in ex:
+            files = {"workflow.yaml": wf(ITEMS, "  success: {d: !expr \"$.steps.loop.outputs.success.data\"}\n  failed: {e: %s}\n" % ex, steps=LOOP), "sub.yaml": wf("", OUT, root="Item")}
+            raw.append(("reflective-fault/%d" % k, files, {"tag": "T", "items": [{"tag": "bad"}, {"tag": "i1"}]}))
+        else:
+            raw.append(("reflective-fault/%d" % k, {"workflow.yaml": wf("", "  success: {v: %s}\n" % ex)}, {"tag": "a,b"}))
+            raw.append(("reflective-fault/items/%d" % k, {"workflow.yaml": wf("", '  success: {d: !expr "$.steps.loop.outputs.success.data"}\n', steps=STEP + "  loop: {kind: foreach, workflow: sub.yaml, items: %s}\n" % ex),
+                                                          "sub.yaml": wf("", OUT, root="Item").replace("tag: {type: {type_id: string}}", "item: {type: {type_id: any}}, constant: {type: {type_id: any}}").replace('"$.input.tag"', '"$.input.constant"')}, {"tag": "a,b"}))
+    for shape, files, inp in raw:
+        scripts = {"leaf_w": {"exec_by_tag": {"bad": {"outcome": "crash"}}}}
+        case = {"id": "c07-%05d" % len(items), "files": files, "scripts": scripts, "runs": [{"input": inp}]}
+        items.append((case, None, {"shape": "hand-written/" + shape, "fault": ("hand-written:" + shape.split("/")[0], shape), "program": None, "outcome": {}}))
     stats = {"accepted": 0, "rejected": 0, "returned_error": 0, "returned_output": 0, "crashes": 0, "rejected_classes": {}}
     with harness.Runner() as rn:
         if not rn.hang_oracle_works():
